@@ -1100,7 +1100,7 @@ def judge_calc(trace, tag):
     for line in open(trace):
         if '"seeds"' in line:
             q = json.loads(line)
-            expect += len(q["seeds"]) + len(q["steps"])
+            expect += len(q["seeds"]) + len(q["steps"]) + len(q.get("final", []))
     if len(out) != expect:
         raise vlib.ToolError(f"Judge_Calc: {expect} seeds+steps recorded but {len(out)} verdict lines parsed ({trace})")
     return res, out
@@ -1187,6 +1187,12 @@ def calc_pipeline(v, pid, tier, alphabet, max_steps, families, acts, what, n_per
                     v.known_finding("F8", "a listed variable that no longer occurs (derivative of `x`, `y*0`, `0/(x+1)`) is dropped when the "
                                           "expression is printed and parsed back / serialised (C12) or substituted (C11)")
                     continue
+            if act == "final":
+                # k is the pool entry (seeds first, then one entry per step) observed again at the end of the session
+                v.violation({"seeds": seeds, "history": [{kk: vv for kk, vv in st.items() if kk != "res"} for st in r0.get("steps", [])],
+                             "entry": k, "observed": (r0.get("final") or [])[k - 1:k]},
+                            f"{what}: seeds {[x[:60] for x in seeds]} pool entry {k} observed again after {len(r0.get('steps', []))} calls: {verdict}")
+                continue
             v.violation({"seeds": seeds, "history": hist, "step": k, "observed": (r0.get("steps") or [{}])[k - 1].get("res") if k else None},
                         f"{what}: seeds {seeds} step {k} {act}: {verdict}")
     v.cov["steps_judged"] = stats
@@ -1610,6 +1616,18 @@ def c20(a):
     v.notes.append(f"{len(traces)} fresh 16-thread processes: all threads parse 6 texts (flat/deep, well-formed and malformed) and 3 float texts at "
                    "once as the first use of the library, then evaluate shared Arc<FlatEx<Term>>, Arc<FlatEx<f64>> and Arc<DeepEx<f64>> "
                    "concurrently; every per-thread event is validated in isolation by Judge_Threads; dumps before/after are identical")
+    # (5) immutability in sessions: entries with more operators on one level than any inline capacity are cloned and the clone is
+    # changed; at the end of the session every entry is observed once more and must equal its first observation (AppendOnly)
+    keep = {k: v.cov.get(k) for k in ("distinct_nontrivial", "steps_judged")}
+    st = calc_pipeline(v, "C20", a.tier, [], 0, ["immut"], {"final"}, "an expression changed after it was built", 120 if q else 1600)
+    v.cov["final_observations"] = st.get("final", {})
+    for k, val in keep.items():
+        if val is None:
+            v.cov.pop(k, None)
+        else:
+            v.cov[k] = val
+    v.notes.append("sessions `immut`: one-level expressions of 22-45 operands, clones changed by substitution with numbers / conversion / "
+                   "operators / differentiation; every pool entry re-observed at the end of the session and compared with its first observation by Judge_Calc.FinalVerdict")
     v.cov["rule"] = "real schedules are sampled (16 threads x fresh processes), not enumerated; the interleaving model is exhaustive"
     v.sample({"tid": 3, "act": "eval", "text": texts[0], "values": "x1#t3, x2#t3"})
     v.assumptions += ["'all interleavings' on the real code rests on Send/Sync type checking + the validated absence of state change, not on "
